@@ -98,11 +98,16 @@ def proxy_case(draw: Any) -> Dict[str, Any]:
     if draw(st.booleans()):
         if mode == "legacy":
             attacker = [["x-forwarded-for", "6.6.6.6, 7.7.7.7"], ["X-Forwarded-Proto", "https"],
-                        ["x-forwarded-host", "attacker.test"]]
+                        ["x-forwarded-host", "attacker.test"],
+                        # obs-text octets (legal in a field value, not valid UTF-8)
+                        ["x-forwarded-for", "\xff\xfe, 7.7.7.7"],
+                        ["x-forwarded-host", "caf\xe9.test"]]
             attacker = draw(st.lists(st.sampled_from(attacker), min_size=1, max_size=3,
                                      unique_by=lambda h: h[0].lower()))
         else:
-            attacker = [["forwarded", "for=6.6.6.6;host=attacker.test;proto=https"]]
+            attacker = [draw(st.sampled_from([
+                ["forwarded", "for=6.6.6.6;host=attacker.test;proto=https"],
+                ["forwarded", "for=\xff\xfe;host=caf\xe9.test;proto=https"]]))]
     return {
         "mode": mode, "hops": draw(st.integers(0, 4)), "headers": headers, "attacker": attacker,
         "type": draw(st.sampled_from(["http", "http", "websocket", "lifespan"])),
@@ -208,7 +213,12 @@ def _call_proxy(case: Dict[str, Any], headers: List[List[str]],
                           " for=7.7.7.7;host=e3.test;proto=wss, for=5.5.5.5;host=e4.test;proto=wss"]])
         run_sync(mw(earlier, receive, send))
         seen.clear()
-    run_sync(mw(scope, receive, send))
+    try:
+        run_sync(mw(scope, receive, send))
+    except Violation:
+        raise
+    except Exception as e:  # whatever the headers carry, the request must reach the application
+        raise Violation("proxyfix_raised", f"{e!r} for headers {headers}")
     if "scope" not in seen:
         raise Violation("proxyfix_app_not_called", "")
     if seen["same_callables"] != (receive, send):
